@@ -107,7 +107,13 @@ impl Allocate<NonNull<u8>> for OneChunkAllocator {
                 "{} since there is no more chunk available.", msg);
         }
 
-        let available_size = self.size - (adjusted_start - self.start as usize);
+        let padding = adjusted_start - self.start as usize;
+        if self.size < padding {
+            fail!(from self, with AllocationError::OutOfMemory,
+                "{} due to insufficient available memory.", msg);
+        }
+
+        let available_size = self.size - padding;
         if available_size <= layout.size() {
             fail!(from self, with AllocationError::OutOfMemory,
                 "{} due to insufficient available memory.", msg);
